@@ -63,6 +63,21 @@ class Ctx(object):
         traces = doc["traces"]
         if not traces:
             return [], []
+        # large batches are validated in chunks (bounded JSON size and TLC memory); indices are re-based
+        total = sum(len(t) for t in traces)
+        if total > 250000 and len(traces) > 1:
+            fails = []
+            start = 0
+            while start < len(traces):
+                n, ev = 0, 0
+                while start + n < len(traces) and (n == 0 or ev + len(traces[start + n]) <= 250000):
+                    ev += len(traces[start + n])
+                    n += 1
+                part = dict(doc, traces=traces[start:start + n])
+                f, _ = self.validate(module, part, cfg=cfg, timeout=timeout, label=label)
+                fails += [(t + start, l, c) for t, l, c in f]
+                start += n
+            return fails, []
         path = tlc.write_json("traces.json", doc)
         cfg = cfg or ("SPECIFICATION TSpec\nCONSTRAINT Reach\nPOSTCONDITION Post\nCHECK_DEADLOCK FALSE\n")
         r = tlc.run(module, cfg, env={"TRACE_FILE": path}, workers=1, timeout=timeout)
